@@ -230,7 +230,21 @@ func (t *Transformer) TranslateType() (reflect.Type, error) {
 
 		t.mState[manglerNum] = layerState
 	}
-	return reflect.StructOf(layerFields), nil
+	return structOf(layerFields)
+}
+
+// structOf builds the translated struct type. reflect.StructOf panics on a
+// field list it cannot represent (two manglers' output fields with the same
+// name, a field whose derived name is empty or not an exported identifier, ...);
+// which lists those are depends on the config type and the naming functions
+// the caller configured, so report them as an error of the translation.
+func structOf(fields []reflect.StructField) (t reflect.Type, err error) {
+	defer func() {
+		if r := recover(); r != nil {
+			t, err = nil, fmt.Errorf("cannot build the translated struct type: %v", r)
+		}
+	}()
+	return reflect.StructOf(fields), nil
 }
 
 // Translate calls `TranslateType` and returns an instance of the new type (or an error)
